@@ -13,12 +13,16 @@ import tempfile
 
 from harness import chainrun, core, scen, vcommon, world as W
 
-RULE = ("histories of 1-4 steps (create / modify / delete / rename through a scripted command; run or record start+stop; "
-        "random key type, format, stream recording, compact JSON, environment) with at most one tamper event: file edit / add "
+RULE = ("histories of 1-4 steps (create / modify / delete / rename through a scripted command; run, run without a command or "
+        "record start+stop; rsa / ecdsa / ed25519 / gpg keys, both formats, stream recording, compact JSON, environment; per "
+        "history: exclude patterns, one or two prefixes to strip (including a second prefix that matches what is left after "
+        "the first), base path) with at most one tamper event: file edit / add "
         "/ delete / rename / content-preserving rewrite / excluded file at a step boundary or on the final product, link edit / "
         "swap (re-signed by an unauthorised key) / removal. Non-trivial: every history; distinct by description.")
 ASSUMPTIONS = ["the layout closes every rule list: REQUIRE for every product of the previous step, MATCH * WITH PRODUCTS, DISALLOW *",
-               "recording uses the default exclude patterns; the harness's own walker decides what is covered"]
+               "the harness's own walker and pathspec decide what is covered and under which name; the final inspection records "
+               "with the default patterns and no stripping, so its rules use MATCH ... IN <prefix> and ALLOW for files the "
+               "history's patterns exclude"]
 HARMLESS = {None, "rewrite", "excluded"}
 
 
@@ -28,8 +32,10 @@ def one_case(rng, res, check_c11=True):
         n = rng.randrange(1, 5)
         tamper = rng.choice(chainrun.TAMPERS)
         at = rng.randrange(1, n + 1)       # between step at-1 and step at; at = n: the final product
-        h = chainrun.Honest(rng, root).carry_out(n, tamper, at)
+        opts = chainrun.gen_opts(rng)
+        h = chainrun.Honest(rng, root).carry_out(n, tamper, at, opts)
         desc = {"steps": n, "tamper": tamper if h.tamper_applied else None, "at": at,
+                "options": {"exclude": opts["exclude"][0] if opts["exclude"] else None, "lstrip": opts["lstrip"], "base_path": opts["base"]},
                 "modes": [s["mode"] for s in h.steps], "fmts": ["dsse" if s["dsse"] else "metablock" for s in h.steps],
                 "keys": [s["key"].kind for s in h.steps]}
         if check_c11:
@@ -71,12 +77,17 @@ def judge_links(h, res, desc):
         md = Metadata.load(st["file"])
         pl = md.get_payload()
         why = None
-        if pl.materials != chainrun.covered(st["before"]):
-            why = "materials are not the state of the paths immediately before the command"
-        elif pl.products != chainrun.covered(st["after"]):
-            why = "products are not the state of the paths after the command"
+        if pl.materials != chainrun.covered(st["before"], h.opts):
+            why = "materials are not the state of the paths immediately before the command (names / exclusion per the options)"
+        elif pl.products != chainrun.covered(st["after"], h.opts):
+            why = "products are not the state of the paths after the command (names / exclusion per the options)"
         elif pl.name != st["name"]:
             why = "link does not carry the step name"
+        elif st["mode"] == "run_no_command":
+            if pl.command != [] or pl.byproducts != {}:
+                why = "a run without a command recorded a command or byproducts"
+            elif pl.materials != pl.products:
+                why = "a run without a command recorded different materials and products"
         elif st["mode"] == "run":
             if pl.command != st["cmd"]:
                 why = "command line not recorded"
